@@ -420,6 +420,8 @@ def _same(a, b) -> bool:
 def impl(case):
     if case.get("op") == "parse":
         return impl_parse(case)
+    if case.get("op") == "union":
+        return impl_union(case)
     envc = enum_classes(case["env"])
     tcls = target_class(case["target"], envc)
     out = {}
@@ -1116,7 +1118,10 @@ class C12(Check):
             "dict, date/datetime/time/timedelta/UUID, plain and mixed-in enum members, objects, user subclasses) x 49 targets "
             "(21 builtin/stdlib classes, 18 user subclasses, 6 enum classes, 4 abstract collection classes, 1 unregistered class); "
             "quick: every (kind x target) cell once + random structured values; thorough: every pool value x every target + random. "
-            "distinct = (target, value); non-trivial = the value's exact type is not the target (a converter actually ran)")
+            "plus Union targets (every ordered pair of 19 members, triples/quadruples, 75 multi-convertible values, type_transform and Schema-field "
+            "routes) and data-class targets given lists/tuples of dicts / instances / subclass instances / foreign instances / texts in every "
+            "position (type_transform, field, parameter routes), tuple prefixes, unknown keys, Options.  "
+            "distinct = (target or member list, value, route); non-trivial = the value's exact type is not the target (a converter actually ran)")
     assumptions = [
         "CPython builtins (float/Decimal/strptime/json/ast.literal_eval/…) are parameters of the model (Prims); their answers are "
         "taken from the running interpreter per case; laws used by the theorems (PrimLaws: strict decode ⊆ ignore decode, "
@@ -1127,7 +1132,9 @@ class C12(Check):
 
     # ---- cases ---------------------------------------------------------------------------------
     def cases(self, tier, rng, n):
-        return gen_cases(tier, rng, n) + parse_cases(tier, rng)
+        if tier == "search":
+            return gen_cases(tier, rng, n) + union_cases("quick", rng)
+        return gen_cases(tier, rng, n) + parse_cases(tier, rng) + union_cases(tier, rng)
 
     def evaluate(self, cases):
         from .common import run_impl
@@ -1145,6 +1152,8 @@ class C12(Check):
     def compare(self, case, io, mo):
         if case.get("op") == "parse":
             return compare_parse(case, io, mo)
+        if case.get("op") == "union":
+            return compare_union(case, io, mo)
         if not isinstance(mo, dict) or "ff" not in mo:
             return f"driver: {str(mo)[:200]}"
         if io.get("hang") or io.get("crash"):
@@ -1168,6 +1177,8 @@ class C12(Check):
     def spec(self, case, io, mo):
         if case.get("op") == "parse":
             return spec_parse(case, io)
+        if case.get("op") == "union":
+            return spec_union(case, io)
         if io.get("hang") or io.get("crash"):
             return None          # totality is C04's property
         env, t, v = case["env"], case["target"], case["value"]
@@ -1265,8 +1276,13 @@ class C12(Check):
         return f"{jkind(v)} (group {sorted(map(str, gv))}) became {tname(t)} (group {sorted(map(str, gt))})"
 
     def classify(self, case, io, why):
+        if case.get("op") == "union":
+            # only: no_explicit_cast alone, and no member accepts the value under both preferences
+            if why.startswith("mono") and "no_explicit_cast" in why and "no_data_loss" not in why and io.get("strict_member_ok") is False:
+                return "union-member-choice-under-nec"
+            return None
         if case.get("op") == "parse":
-            if case.get("kind") == "dataclass" and "no_explicit_cast" in why and jkind(case["value"]) in ("list", "tuple"):
+            if case.get("kind") == "dataclass" and "no_explicit_cast" in why and jkind_dc(case["value"]) in ("list", "tuple"):
                 return "dataclass-list-under-nec"
             return None
         t, v = case["target"], case["value"]
@@ -1298,13 +1314,17 @@ class C12(Check):
     def key(self, case, io):
         if case.get("op") == "parse":
             return "parse:" + json.dumps(case, sort_keys=True)
+        if case.get("op") == "union":
+            return "union:" + case.get("route", "") + ":" + ",".join(tname(t) for t in case["members"]) + "|" + vkey(case["value"])
         if jtype(case["value"]) == ttype(case["target"]):
             return None
         return tname(case["target"]) + "|" + vkey(case["value"])
 
     def distribution(self, case, io):
         if case.get("op") == "parse":
-            return "parse/" + case["kind"]
+            return "parse/" + case["kind"] + ("/" + case["route"] if "route" in case else "")
+        if case.get("op") == "union":
+            return f"union/{len(case['members'])}/{case.get('route')}"
         if not isinstance(io, dict) or "ff" not in io:
             return "no-answer"
         pat = "".join("o" if "ok" in io[k] else ("p" if "perr" in io[k] else ("d" if "diverge" in io[k] else "e")) for k, _, _ in FLAG_KEYS)
@@ -1313,6 +1333,12 @@ class C12(Check):
     def neighbours(self, case, rng):
         if case.get("op") == "parse":
             return []
+        if case.get("op") == "union":
+            ms = case["members"]
+            out = [dict(case, members=ms[::-1])]
+            for v in union_values():
+                out.append(dict(case, value=v))
+            return out
         out = []
         v = case["value"]
         for t in all_targets():
@@ -1424,6 +1450,128 @@ def outcome_name(o) -> str:
 # (rule.py:1896-1899, options.py:151-155, cls.py:598-606) — filled in below
 # ------------------------------------------------------------------------------------------------
 
+# ------------------------------------------------------------------------------------------------
+# Union targets: the stages `LogicalType.logical_parse` builds from the flags (rule.py:381-431)
+# ------------------------------------------------------------------------------------------------
+
+UNION_MEMBERS = [{"cls": b, "sub": 0} for b in ("NoneType", "bool", "int", "float", "Decimal", "str", "bytes", "list", "tuple", "set", "dict",
+                                                "date", "datetime", "timedelta", "time", "UUID")] + [{"cls": "int", "sub": 1}, {"enum": 2}, {"enum": 0}]
+
+
+def union_values():
+    vals = [3.7, 3.0, 2.5, 0.0, 1.0, Decimal("1.5"), Decimal("7"), Decimal("1"), Decimal("0.0"), "12", "2.50", "3.0", b"10", b"true", "true",
+            "null", "None", "yes", "", 1, 0, 2, True, False, None, "2020-02-20", "2020-02-20 10:11:12", "2020-02-20 00:00:00", 1641158543,
+            1641158543.5, [1], [1, 2], ("a",), (1, 2), "[1,2]", "a,b", "(1,2)", {}, {"a": 1}, '{"a": 1}', "k1=v1&k2=v2", date(2020, 2, 20), DT,
+            time(11, 12, 13), timedelta(hours=1), "11:12:13", "P1DT00H00M00S", "5.1234567", "-10.1", str(UID), UID, UID.bytes, 12.3456, b"",
+            b"-0.3", b"2020-02-20", SubInt(3), 2 ** 128, 10 ** 20, "B", "a", "z", [b"7"], ["true"], [3.5], {1}, frozenset({2}), bytearray(b"12"),
+            0j, 1 + 0j, b"\xff1", [{"a": 1}], [("a", 1)]]
+    return [_e(v) for v in vals]
+
+
+def union_cases(tier, rng):
+    """Union[members…] x value: every ordered pair of members (thorough: x every value; quick: a seeded sample with
+    every ordered pair at least once) plus triples; values chosen to be convertible by several members"""
+    vals = union_values()
+    pairs = [(a, b) for a in UNION_MEMBERS for b in UNION_MEMBERS if a != b]
+    out = []
+    demo = [(b"10", ("int", "str")), ("12", ("int", "Decimal")), (b"true", ("bool", "str")), (Decimal("1.5"), ("int", "float")),
+            (Decimal("7"), ("bool", "float")), ("2.50", ("float", "Decimal")), (3.7, ("int", "str")), (3.7, ("bool", "int")), (None, ("int", "NoneType"))]
+    for v, ms in demo:
+        for order in (ms, ms[::-1]):
+            out.append({"op": "union", "members": [{"cls": m, "sub": 0} for m in order], "value": _e(v), "env": ENV, "route": "transform"})
+            out.append({"op": "union", "members": [{"cls": m, "sub": 0} for m in order], "value": _e(v), "env": ENV, "route": "field"})
+    if tier == "thorough":
+        for a, b in pairs:
+            for v in vals:
+                out.append({"op": "union", "members": [a, b], "value": v, "env": ENV, "route": "transform"})
+    else:
+        for a, b in pairs:
+            for v in rng.sample(vals, 4):
+                out.append({"op": "union", "members": [a, b], "value": v, "env": ENV, "route": "transform"})
+    for _ in range(300 if tier != "thorough" else 4000):
+        ms = rng.sample(UNION_MEMBERS, rng.choice([2, 3, 3, 4]))
+        out.append({"op": "union", "members": ms, "value": rng.choice(vals), "env": ENV, "route": rng.choice(["transform", "transform", "field"])})
+    return out
+
+
+def impl_union(case):
+    import typing
+    from utype import Options, Rule, Schema, type_transform
+    envc = enum_classes(case["env"])
+    members = [target_class(t, envc) for t in case["members"]]
+    ann = typing.Union[tuple(members)]
+    out, results = {}, {}
+    signal.signal(signal.SIGALRM, _alarm)
+    for key, nec, ndl in FLAG_KEYS:
+        value = dec(case["value"], envc)
+        o = Options(no_explicit_cast=nec, no_data_loss=ndl)
+        signal.setitimer(signal.ITIMER_REAL, HANG_S)
+        try:
+            try:
+                if case.get("route") == "field":
+                    M = type("M", (Schema,), {"__options__": o, "__annotations__": {"x": ann}})
+                    r = M(x=value).x
+                else:
+                    r = type_transform(value, Rule.parse_annotation(ann), options=o)
+            finally:
+                signal.setitimer(signal.ITIMER_REAL, 0)
+        except _Hang:
+            out[key], results[key] = {"diverge": True}, None
+        except RecursionError:
+            out[key], results[key] = {"escape": "RecursionError"}, None
+        except (TypeError, ValueError) as e:
+            out[key], results[key] = {"perr": type(e).__name__}, None
+        except Exception as e:
+            out[key], results[key] = {"escape": type(e).__name__}, None
+        else:
+            out[key], results[key] = {"ok": enc(r, envc)}, r
+    for key in ("ft", "tf", "tt"):
+        if "ok" in out[key] and "ok" in out["ff"]:
+            out["same_" + key] = _same(results["ff"], results[key])
+    # does any member accept the value strictly (both preferences)?  (classification of union-member-choice-under-nec)
+    strict = False
+    for m in members:
+        o, _ = impl_call(m, dec(case["value"], envc), True, True, envc)
+        if "ok" in o:
+            strict = True
+            break
+    out["strict_member_ok"] = strict
+    return out
+
+
+def compare_union(case, io, mo):
+    if not isinstance(mo, dict) or "ff" not in mo:
+        return f"driver: {str(mo)[:200]}"
+    if io.get("hang") or io.get("crash"):
+        return f"implementation did not answer: {io}"
+    for key, _, _ in FLAG_KEYS:
+        m, i = mo[key], io[key]
+        if "unmodelled" in m or ("ok" in i and _has_unencodable(i["ok"])):
+            continue
+        if "ok" in m or "ok" in i:
+            if canon(m) != canon(i):
+                return f"union flags {key}: model {json.dumps(m)[:160]} != implementation {json.dumps(i)[:160]}"
+        elif ("diverge" in m) != ("diverge" in i):
+            return f"union flags {key}: model {json.dumps(m)[:160]} != implementation {json.dumps(i)[:160]}"
+    return None
+
+
+def spec_union(case, io):
+    if io.get("hang") or io.get("crash"):
+        return None
+    for key, nec, ndl in FLAG_KEYS[1:]:
+        o = io[key]
+        if "ok" not in o:
+            continue
+        names = ", ".join(tname(t) for t in case["members"])
+        if "ok" not in io["ff"]:
+            return f"mono: Union[{names}] converts under {flag_name(nec, ndl)} but not without flags ({outcome_name(io['ff'])})"
+        if not io.get("same_" + key, False):
+            return (f"mono: Union[{names}] under {flag_name(nec, ndl)} gives {json.dumps(o['ok'])[:100]} but without flags "
+                    f"{json.dumps(io['ff']['ok'])[:100]}")
+    return None
+
+
 ADDITIONS = ("unset", "none", "no", "yes")
 ADD_PY = {"none": None, "no": False, "yes": True}
 
@@ -1443,8 +1591,70 @@ def _dataclass_values():
     return [_e(v) for v in vals]
 
 
-def parse_cases(tier, rng):
+DC_ITEMS = [{"m": [[{"s": "a"}, {"i": "1"}]]}, {"m": [[{"s": "a"}, {"i": "2"}]]}, {"dc": "S", "a": 1}, {"dc": "S", "a": 2},
+            {"dc": "S2", "a": 3}, {"dc": "O", "a": 4}, {"s": "{\"a\": 3}"}, {"q": [{"s": "a"}, {"i": "1"}], "k": "tuple"}]
+DC_OBJ = {"S": 10, "O": 11, "S2": 12}
+
+
+def dataclass_instance_cases(tier, rng):
+    """lists / tuples over dicts, instances of the class, of a subclass, of another data class, texts, pairs —
+    every item in every position (lengths 0-2 exhaustively, length 3 sampled), plus the bare items"""
+    vals = list(DC_ITEMS)
+    for k in ("list", "tuple"):
+        vals.append({"q": [], "k": k})
+        for a in DC_ITEMS:
+            vals.append({"q": [a], "k": k})
+            for b in DC_ITEMS:
+                vals.append({"q": [a, b], "k": k})
+        r3 = random.Random(7)
+        for _ in range(24 if tier != "thorough" else 200):
+            vals.append({"q": [r3.choice(DC_ITEMS) for _ in range(3)], "k": k})
     out = []
+    for v in vals:
+        out.append({"op": "parse", "kind": "dataclass", "route": "transform", "value": v})
+        if jkind_dc(v) in ("list", "tuple") and len(v["q"]) >= 1 and (len(v["q"]) != 2 or tier == "thorough" or (hash(json.dumps(v, sort_keys=True)) % 3 == 0)):
+            out.append({"op": "parse", "kind": "dataclass", "route": "field", "value": v})
+            out.append({"op": "parse", "kind": "dataclass", "route": "param", "value": v})
+    return out
+
+
+def jkind_dc(j):
+    return "instance" if isinstance(j, dict) and "dc" in j else jkind(j)
+
+
+def dc_to_model(j):
+    """the driver sees instances as opaque objects: obj 10 = the class, 11 = another data class, 12 = a subclass"""
+    if isinstance(j, dict) and "dc" in j:
+        return {"o": DC_OBJ[j["dc"]]}
+    if isinstance(j, dict) and "q" in j:
+        return dict(j, q=[dc_to_model(x) for x in j["q"]])
+    return j
+
+
+_DC_CLASSES = None
+
+
+def dc_classes():
+    global _DC_CLASSES
+    if _DC_CLASSES is None:
+        from utype import Schema
+        S = type("S", (Schema,), {"__annotations__": {"a": int}, "a": 0})
+        S2 = type("S2", (S,), {})
+        O = type("O", (Schema,), {"__annotations__": {"a": int}, "a": 0})
+        _DC_CLASSES = {"S": S, "S2": S2, "O": O}
+    return _DC_CLASSES
+
+
+def dc_dec(j):
+    if isinstance(j, dict) and "dc" in j:
+        return dc_classes()[j["dc"]](a=j["a"])
+    if isinstance(j, dict) and "q" in j:
+        return _cls(j["k"], j.get("c", 0))([dc_dec(x) for x in j["q"]])
+    return dec(j, None)
+
+
+def parse_cases(tier, rng):
+    out = dataclass_instance_cases(tier, rng)
     for ndl in (False, True):
         for a in ADDITIONS:
             out.append({"op": "parse", "kind": "options", "ndl": ndl, "addition": a})
@@ -1455,7 +1665,7 @@ def parse_cases(tier, rng):
                     for src in ("tuple", "list"):
                         out.append({"op": "parse", "kind": "tuple", "ndl": ndl, "addition": a, "nargs": nargs, "nvals": nvals, "src": src})
     for v in _dataclass_values():
-        out.append({"op": "parse", "kind": "dataclass", "value": v})
+        out.append({"op": "parse", "kind": "dataclass", "route": "transform", "value": v})
     return out
 
 
@@ -1520,21 +1730,45 @@ def impl_parse(case):
         return {"ok": len(r)}
     if kind == "dataclass":
         from utype.parser.cls import init_dataclass
-        S = type("S", (Schema,), {"__annotations__": {"a": int}, "a": 0})
+        S = dc_classes()["S"]
+        route = case.get("route", "transform")
         out = {}
         for key, nec, ndl in FLAG_KEYS:
             o = Options(no_explicit_cast=nec, no_data_loss=ndl)
 
-            def run(fn):
+            def run(fn, v=None):
                 try:
-                    return {"ok": dict(fn())}
+                    r = fn()
                 except Exception as e:
                     return _err(e)
-            v = dec(case["value"], None)
-            out[key] = run(lambda: type_transform(v, S, options=o))
-            out[key + "_init_v"] = run(lambda: init_dataclass(S, v, context=o.make_context()))
-            if isinstance(v, (list, tuple)) and v:
-                out[key + "_init_head"] = run(lambda: init_dataclass(S, v[0], context=o.make_context()))
+                res = {"ok": dict(r), "cls": type(r).__name__}
+                if v is not None:
+                    ident = None
+                    if r is v:
+                        ident = "top"
+                    elif isinstance(v, (list, tuple)):
+                        for i, x in enumerate(v):
+                            if x is r:
+                                ident = i
+                                break
+                    res["ident"] = ident
+                return res
+            v = dc_dec(case["value"])
+            if route == "transform":
+                out[key] = run(lambda: type_transform(v, S, options=o), v)
+            elif route == "field":
+                T = type("Ticket", (Schema,), {"__options__": o, "__annotations__": {"owner": S}})
+                out[key] = run(lambda: T(owner=v).owner, v)
+            else:
+                def owner_of(owner):
+                    return owner
+                owner_of.__annotations__ = {"owner": S}          # (this module postpones annotations)
+                parsed = utype.parse(options=o)(owner_of)
+                out[key] = run(lambda: parsed(v), v)
+            v2 = dc_dec(case["value"])
+            out[key + "_init_v"] = run(lambda: init_dataclass(S, v2, context=o.make_context()))
+            if isinstance(v2, (list, tuple)) and v2:
+                out[key + "_init_head"] = run(lambda: init_dataclass(S, v2[0], context=o.make_context()))
         return out
     raise ValueError(kind)
 
@@ -1542,7 +1776,7 @@ def impl_parse(case):
 def parse_model_lines(case):
     """driver lines for one parse case (the dataclass kind needs one per flag combination)"""
     if case["kind"] == "dataclass":
-        return [dict(case, nec=nec, ndl=ndl) for _, nec, ndl in FLAG_KEYS]
+        return [dict(case, value=dc_to_model(case["value"]), nec=nec, ndl=ndl) for _, nec, ndl in FLAG_KEYS]
     return [case]
 
 
@@ -1563,18 +1797,27 @@ def compare_parse(case, io, mo):
             return f"tuple excess: model reports nothing, impl {io}"
         return None
     if kind == "dataclass":
-        v = case["value"]
+        v = dc_to_model(case["value"])
+        wrapped = case.get("route", "transform") != "transform"       # a field / parameter wraps every failure in ParseError
         for (key, nec, ndl), m in zip(FLAG_KEYS, mo):
             got = io[key]
             if "perr" in m:
-                if got.get("perr") != "TypeError":
+                if "ok" in got or (not wrapped and got.get("perr") != "TypeError"):
                     return f"dataclass input {key}: model raises TypeError, impl {got}"
                 continue
-            if "ok" not in m:
+            if "instance" in m:
+                top = canon(m["instance"]) == canon(v) and jkind(v) not in ("list", "tuple")
+                want = "top" if top else 0
+                if "ok" not in got or got.get("ident") != want:
+                    return f"dataclass input {key}: model returns the {'input' if top else 'first item'} itself (an instance), impl {got}"
                 continue
-            same = canon(m["ok"]) == canon(v)
+            if "init" not in m:
+                continue
+            same = canon(m["init"]) == canon(v)
             want = io.get(key + "_init_v") if same else io.get(key + "_init_head")
-            if want is None or json.dumps(want, sort_keys=True, default=str) != json.dumps(got, sort_keys=True, default=str):
+            strip = lambda d: None if d is None else ({"ok": d["ok"], "cls": d.get("cls")} if "ok" in d else ({"fail": True} if wrapped else d))
+            if want is None or json.dumps(strip(want), sort_keys=True, default=str) != json.dumps(strip(got), sort_keys=True, default=str) \
+                    or ("ok" in got and got.get("ident") is not None):
                 return f"dataclass input {key}: model hands on {'the input' if same else 'the first item'} (init gives {want}), impl {got}"
         return None
     return None
@@ -1601,17 +1844,17 @@ def spec_parse(case, io):
         # only restrict: what converts under no_data_loss converts without it
     if kind == "dataclass":
         v = case["value"]
-        multi_in = jkind(v) in ("list", "tuple")
+        multi_in = jkind_dc(v) in ("list", "tuple")
         for key, nec, ndl_ in FLAG_KEYS[1:]:
             got = io[key]
             if "ok" not in got:
                 continue
             if ndl_ and multi_in and len(v["q"]) > 1:
-                return f"no_data_loss ({flag_name(nec, ndl_)}): a {jkind(v)} of {len(v['q'])} items collapsed into a data class"
+                return f"no_data_loss ({flag_name(nec, ndl_)}): a {jkind_dc(v)} of {len(v['q'])} items collapsed into a data class"
             if "ok" not in io["ff"]:
                 return f"mono: data class input converts under {flag_name(nec, ndl_)} but not without flags ({io['ff']})"
-            if io["ff"]["ok"] != got["ok"]:
-                return f"mono: data class built under {flag_name(nec, ndl_)} {got['ok']} differs from the lenient one {io['ff']['ok']}"
+            if io["ff"]["ok"] != got["ok"] or io["ff"].get("cls") != got.get("cls"):
+                return f"mono: data class built under {flag_name(nec, ndl_)} {got['ok']} ({got.get('cls')}) differs from the lenient one {io['ff']['ok']} ({io['ff'].get('cls')})"
     return None
 
 
